@@ -30,7 +30,7 @@ impl Property for C16 {
         "2-6 commands (redo, redo-ifchange, redo-ood, redo-targets, redo-sources) started together or \
          at drawn later steps on one project (sometimes two builders naming the same two targets in opposite order), including on a project with no .redo directory yet and on a built project from which generated files were removed; all \
          scripts succeed; every interleaving point of SQLite's own fcntl locks and writes is a \
-         scheduling point and its busy handler runs on simulated time; oracle: every command exits 0, no \
+         scheduling point and its busy handler runs on simulated time; oracle: every command terminates and exits 0, no \
          output mentions a busy/locked/missing-table/connect error, integrity_check is ok afterwards and \
          every edge declared by a script that ended with status 0 is in Deps; non-trivial = >=1 \
          preemption and >=1 script; distinct = (scenario, preemption signature)"
@@ -135,6 +135,15 @@ impl Property for C16 {
             None => return v,
         };
         if !judgeable(g) {
+            // a command that neither succeeds nor fails: commands waiting for
+            // each other's locks forever (or aborting) is the lock error of
+            // this property in its worst form
+            for x in c09::liveness_violations(rec) {
+                v.push(Violation {
+                    kind: format!("concurrent-{}", x.kind),
+                    detail: x.detail,
+                });
+            }
             return v;
         }
         for (k, r) in g.results.iter().enumerate() {
